@@ -201,6 +201,13 @@ def replay(case) -> dict:
         _, g = fsc((a * 2.5).astype(np.float32), (b * 0.5).astype(np.float32), df)
         if not np.allclose(np.asarray(g)[fin], out[fin], atol=1e-5):
             fails.append(dict(desc, clause="GainInvariant"))
+        # gains of many orders of magnitude (detector counts vs normalised maps), as exact powers of two: the scaled spectra are
+        # exactly the scaled originals, so only the per-shell sums and their normalisation can differ
+        for ka, kb in ((22, 21), (40, 38), (-40, -38)):
+            _, g2 = fsc((a * np.float32(2.0**ka)).astype(np.float32), (b * np.float32(2.0**kb)).astype(np.float32), df)
+            if not np.allclose(np.asarray(g2)[fin], out[fin], atol=1e-5):
+                fails.append(dict(desc, clause="GainInvariant", gains_log2=[ka, kb]))
+                break
         _, aa = fsc(a, a, df)
         aa = np.asarray(aa)
         if not np.allclose(aa[np.isfinite(aa)], 1.0, atol=1e-5):
